@@ -244,13 +244,21 @@ def apply_param_filter(el, prop):
     except KeyError:
         return False
 
+    # A parameter can have several values (TYPE=WORK,VOICE)
+    values = value if isinstance(value, list) else [value]
     for subel in el:
         if subel.tag == "{urn:ietf:params:xml:ns:carddav}text-match":
-            if not apply_text_match(subel, value):
+            if not any(apply_text_match(subel, v) for v in values):
                 return False
         else:
             raise AssertionError("unknown tag %r in param-filter", subel.tag)
     return True
+
+
+def _property_text(prop_el) -> str:
+    """The text of a property value, as text-match should see it."""
+    value = prop_el.value
+    return value if isinstance(value, str) else str(value)
 
 
 def apply_prop_filter(el, ab):
@@ -273,7 +281,7 @@ def apply_prop_filter(el, ab):
         matched = True
         for subel in el:
             if subel.tag == "{urn:ietf:params:xml:ns:carddav}text-match":
-                if not apply_text_match(subel, str(prop_el)):
+                if not apply_text_match(subel, _property_text(prop_el)):
                     matched = False
                     break
             elif subel.tag == "{urn:ietf:params:xml:ns:carddav}param-filter":
